@@ -100,7 +100,8 @@ def main():
         os.remove(PD + "/" + f)
     seen = set()
     if batch:
-        seen = {l.split("\t")[0] for l in open(OUT + "/index.tsv")}
+        import glob
+        seen = {l.split("\t")[0] for f in glob.glob(OUT + "/index*.tsv") if f != OUT + "/index" + batch + ".tsv" for l in open(f)}
     assert subprocess.run(["git", "-C", REPO, "status", "--porcelain", "--untracked-files=no"], capture_output=True, text=True).stdout == "", "/repo not clean"
     index = []
     for f in FILES:
